@@ -131,6 +131,11 @@ def scenarios(tier):
                "stdin": '{"ip":"10.200.0.9"}\n{"ip":"10.200.0.10"}\n',
                "expect": {"kind": "app", "scan": "socks", "target": target([0, 0, 0, 0], 0, pairs=[{"ip": lo(9), "port": 1080}, {"ip": lo(9), "port": 1081},
                                                                                                       {"ip": lo(10), "port": 1080}, {"ip": lo(10), "port": 1081}])}})
+    # 9b. background traffic while the scan starts: frames that are not reply-shaped (source outside the subnet, port outside the ranges)
+    # injected continuously from before sx is started until its first probe - they arrive in the window between socket open and filter attach
+    sc.append({"name": "attach-window-flood", "args": ["tcp", "fin", "--json", "-p", "80"] + COMMON + ["--exit-delay", "300ms", "10.9.3.0/30"], "files": {"empty": ""},
+               "flood": tcp_reply([192, 168, 7, 7], 9999, 0x14),
+               "expect": packet_expect("tcpfin", target(net30, 30, [rng(80, 80)]), [[rng(80, 80)]], [4], 300)})
     # 10. targets that are not IPv4 are refused before anything is sent
     for i, t in enumerate(["::1", "::ffff:10.9.3.1/126", "fe80::1/64", "10.9.3.1/33", "10.9.3"]):
         sc.append({"name": "refuse-%d" % i, "args": ["tcp", "syn", "--json", "-p", "80"] + COMMON + ["--exit-delay", "300ms", t], "files": {"empty": ""}, "maxMs": 6000,
@@ -245,6 +250,9 @@ def report(ctx, pid, rejected, names=None):
         if names is not None and not names(b):
             continue
         brief = {k: (v if k not in ("probes", "injected", "expect") else "(%d)" % len(v) if isinstance(v, list) else "...") for k, v in b.items() if not k.startswith("_")}
-        ctx.violation("%s:wire:%s" % (pid, b["name"]), "sx %s on the virtual wire: %s; exit=%s probes=%d stdout=%s stderr=%s" %
+        name = b["name"]
+        if name == "attach-window-flood" and b["records"] and all(r["ip"] == [192, 168, 7, 7] and r["port"] == 9999 for r in b["records"]):
+            name = "attach-window-flood:only-flood-frames-reported"
+        ctx.violation("%s:wire:%s" % (pid, name), "sx %s on the virtual wire: %s; exit=%s probes=%d stdout=%s stderr=%s" %
                       (" ".join(b["args"])[:160], b["_clause"][:200], b["exit"], len(b["probes"]), b["stdout"][:6], b["stderr"][:3]),
                       replay={"property": pid, "trace_spec": "WireRunTrace", "env": {"VF_FOCUS": b.get("_focus", "all")}, "run": [{k: v for k, v in b.items() if not k.startswith("_")}], "brief": brief})
